@@ -455,6 +455,10 @@ def ask(target, api, q):
 
 def _ask(target, api, q):
     inputs, output, size_dict = POOL[q]
+    if api == "path_canon":       # the front end's default: indices relabelled in order of appearance
+        return "path", ctg.array_contract_path(inputs, output, size_dict, optimize=target, cache=False)
+    if api == "tree_canon":
+        return "ctree", ctg.array_contract_tree(inputs, output, size_dict, optimize=target)
     if api == "findpath":
         from cotengra.interface import find_path
         return "path", find_path(inputs, output, size_dict, optimize=target)
@@ -471,6 +475,14 @@ def _ask(target, api, q):
 
 
 def judge(kind, val, q):
+    if kind == "ctree":
+        # relabelled tree: leaf count, completeness, path validity (labels differ from the query's by design)
+        n = len(POOL[q][0])
+        if getattr(TL, "autocompleted", None):
+            return "the (canonicalised) tree was only completed by autocompletion"
+        if val.N != n or not val.is_complete() or not valid_path(val.get_path(), n):
+            return "canonicalised tree is not a complete tree of the query's %d tensors" % n
+        return None
     if kind == "tree" and getattr(TL, "autocompleted", None):
         return ("the tree was built from a path that does not contract all of the query's %d tensors and was only "
                 "completed by autocompletion (%s)" % (len(POOL[q][0]), TL.autocompleted[:80]))
@@ -654,6 +666,7 @@ def run_seq(job):
     target = make_target(job)
     bad = []
     got = []
+    prev = None
     for step, q in enumerate(job["history"]):
         api = job.get("api", "tree")
         if isinstance(api, list):
@@ -666,9 +679,52 @@ def run_seq(job):
             continue
         msg = judge(kind, val, q)
         got.append(tree_content(val) if kind == "tree" else -1)
+        if not msg and job.get("fresh_check"):
+            msg = fresh_check(job, kind, val, q, api, prev)
+        prev = (q, kind, val)
         if msg:
             bad.append({"step": step, "query": q, "api": api, "what": msg, "got": describe(kind, val)})
     return {"bad": bad, "got": got}
+
+
+def answer_path(kind, val):
+    return tuple(map(tuple, val if kind == "path" else val.get_path()))
+
+
+def fresh_target(job):
+    """a NEW optimizer of the same configuration (for a preset string: a new instance of its class, defaults)"""
+    t = job["target"]
+    if t in ("preset:auto", "instance:auto_optimize"):
+        return P.AutoOptimizer()
+    if t in ("preset:auto-hq", "instance:auto_hq_optimize"):
+        return P.AutoHQOptimizer()
+    if t.startswith("preset:"):
+        return t.split(":", 1)[1]          # stateless presets
+    return make_target(job)
+
+
+def fresh_check(job, kind, val, q, api, prev):
+    """the answer's cost ON THE QUERY must be what a fresh optimizer of the same configuration gives for this query
+    alone: equal for deterministic configurations, within `factor` otherwise (a positional path found for another
+    ordering of the tensors is off by many orders of magnitude on the graded chains used here)"""
+    fc = job["fresh_check"]
+    cost = path_flops(answer_path(kind, val), q)
+    ft = fresh_target(job)
+    fapi = {"via": "tree", "tree_canon": "tree", "path_canon": "path"}.get(api, api)
+    if isinstance(ft, str):
+        fapi = api
+    fkind, fval = _ask(ft, fapi, q)
+    fcost = path_flops(answer_path(fkind, fval), q)
+    if fc.get("deterministic"):
+        bad = cost != fcost
+    else:
+        bad = cost > fc.get("factor", 1000) * fcost
+    if bad:
+        same_as_prev = prev is not None and prev[0] != q and answer_path(prev[1], prev[2]) == answer_path(kind, val)
+        return ("the answer costs %d flops on the query, a fresh optimizer of the same configuration gives %d for this "
+                "query alone%s" % (cost, fcost, "; the returned path is identical to the PREVIOUS query's path"
+                                   if same_as_prev else ""))
+    return None
 
 
 def run_stress(job):
